@@ -109,10 +109,34 @@ func Minimise(spec *RunSpec, prop, sig string, opts RunOpts, budget int) (*RunSp
 				}) || again
 			}
 			for _, f := range []func(cs *CorruptSpec) bool{
-				func(cs *CorruptSpec) bool { if cs.NLogs == 0 { return false }; cs.NLogs /= 2; return true },
-				func(cs *CorruptSpec) bool { if cs.NRefs <= 1 { return false }; cs.NRefs /= 2; return true },
-				func(cs *CorruptSpec) bool { if len(cs.ReadFaults) == 0 { return false }; cs.ReadFaults = cs.ReadFaults[:len(cs.ReadFaults)-1]; return true },
-				func(cs *CorruptSpec) bool { if cs.Mode == "bytes" { return false }; cs.Mode = "bytes"; return true },
+				func(cs *CorruptSpec) bool {
+					if cs.NLogs == 0 {
+						return false
+					}
+					cs.NLogs /= 2
+					return true
+				},
+				func(cs *CorruptSpec) bool {
+					if cs.NRefs <= 1 {
+						return false
+					}
+					cs.NRefs /= 2
+					return true
+				},
+				func(cs *CorruptSpec) bool {
+					if len(cs.ReadFaults) == 0 {
+						return false
+					}
+					cs.ReadFaults = cs.ReadFaults[:len(cs.ReadFaults)-1]
+					return true
+				},
+				func(cs *CorruptSpec) bool {
+					if cs.Mode == "bytes" {
+						return false
+					}
+					cs.Mode = "bytes"
+					return true
+				},
 			} {
 				again = try(func(c *RunSpec) bool {
 					cs := get(c)
